@@ -102,10 +102,10 @@ Inductive ccase :=
 | KInstall (cap : N) (s : script) (obs : list (oev * bits)) (bend : bits) (r : res)
            (outside stray : bool)
 (* (d) TrustedVerifier.VerifyIndex: calls one after the other (class of the result and the
-   mark in the state file after each) *)
-| KHwmSeq (m0 : Z) (ops : list hop) (obs : list (ores * Z))
+   mark in the state file after each), starting with mark m0 and content h0 on record *)
+| KHwmSeq (m0 : Z) (h0 : option nat) (ops : list hop) (obs : list (ores * Z))
 (* ... and a batch of concurrent calls: result classes, final mark, marks a poller read meanwhile *)
-| KHwmBatch (m0 : Z) (log : list (hop * ores)) (mend : Z) (polled : list Z)
+| KHwmBatch (m0 : Z) (h0 : option nat) (log : list (hop * ores)) (mend : Z) (polled : list Z)
 (* (e) atomicfile.WriteFile (variant 0), SaveManifest (1), SaveState (2) in a traced child:
    system calls on the directory, and what path held after a kill at each of them *)
 | KAtomic (variant : nat) (ops : list sysop) (kills : list seen)
@@ -155,15 +155,15 @@ Definition chk (c : ccase) : nat :=
       code (list_eqb (fun a b => oev_eqb (fst a) (fst b) && bits_eqb (snd a) (snd b)) mobs obs
             && bits_eqb mbend bend && res_eqb mr r)
            (mon_install s obs bend && negb outside && negb stray)
-  | KHwmSeq m0 ops obs =>
+  | KHwmSeq m0 h0 ops obs =>
       code (list_eqb (fun a b => ores_eqb (fst a) (fst b) && Z.eqb (snd a) (snd b))
-                     (map (fun x => (ores_of (fst x), snd x)) (hrun m0 ops)) obs)
+                     (map (fun x => (ores_of (fst x), st_mark (snd x))) (hrun (mkSt m0 h0) ops)) obs)
            (Nat.eqb (length ops) (length obs)
-            && seq_monitor m0 (combine ops (map (fun x => (ores_eqb (fst x) OAcc, snd x)) obs)))
-  | KHwmBatch m0 log mend polled =>
+            && seq_monitor m0 m0 h0 (combine ops (map (fun x => (ores_eqb (fst x) OAcc, snd x)) obs)))
+  | KHwmBatch m0 h0 log mend polled =>
       let l := map (fun x => (fst x, hres_of (snd x))) log in
-      code (batch_explained m0 l mend)
-           (batch_monitor m0 l mend && nondecreasing m0 polled && forallb (fun x => Z.leb x mend) polled)
+      code (batch_explained m0 h0 l mend)
+           (batch_monitor m0 h0 l mend && nondecreasing m0 polled && forallb (fun x => Z.leb x mend) polled)
   | KAtomic _ ops kills =>
       code (list_eqb sysop_eqb (map shape (write_file nat [[0]])) ops)
            (forallb seen_ok kills)
